@@ -29,11 +29,24 @@ for s in seeds:
     try:
         row = results.setdefault(s, {})
         row.pop("_apply", None)
-        for p in props:
-            t0 = time.time()
+        # facts for the patched tree once, then the property checks in parallel (they only read /repo)
+        subprocess.run(["python3", "engine/rules/facts.py", "lib", "lib_crc32c", "tools"], cwd=VERIF, capture_output=True, text=True)
+
+        def one(p):
             c = subprocess.run(["./check", p, "--tier", "quick"], cwd=VERIF, capture_output=True, text=True)
             keys = [l.strip() for l in c.stdout.splitlines() if l.startswith("  rule ")]
-            row[p] = {"exit": c.returncode, "violations": c.stdout.count("VIOLATION property="), "rules": sorted(set(k.split(" ")[1] for k in keys))[:6]}
+            bad = []
+            try:
+                ev = json.load(open(os.path.join(VERIF, "evidence", p + ".json")))
+                bad = sorted({o["key"] for o in ev["coverage"]["samples"] if o.get("verdict") == "VIOLATED"})[:10]
+            except Exception:
+                pass
+            return p, {"exit": c.returncode, "violations": c.stdout.count("VIOLATION property="), "rules": sorted(set(k.split(" ")[1] for k in keys))[:6], "keys": bad,
+                       "unusable": [l for l in (c.stdout + c.stderr).splitlines() if "CHECK-UNUSABLE" in l][:1]}
+        from concurrent.futures import ThreadPoolExecutor
+        with ThreadPoolExecutor(max_workers=10) as ex:
+            for p, res in ex.map(one, props):
+                row[p] = res
         own = s.split("-")[0]
         caught = [p for p in props if row.get(p, {}).get("exit") == 1]
         unusable = [p for p in props if row.get(p, {}).get("exit") == 2]
